@@ -123,6 +123,10 @@ class Renderer:
         self.lines = []
         self.rng = rng
         self.loops = 0
+        # a script (or an included file) may begin with an interpreter line, a comment or a blank line: each is physical
+        # line 1 and every later instruction keeps its own line number (seed C10-w5-m1: a leading `#!` line cut off a file)
+        if rng is not None and rng.random() < 0.25:
+            self.lines.append(rng.choice(["#!/usr/bin/env duck", "#!/usr/bin/duck", "#!", "# comment", "", "#!/bin/duck --eval"]))
 
     def emit(self, text, depth):
         ind = "    " * depth if self.rng is None or self.rng.random() < 0.8 else ""
